@@ -19,12 +19,27 @@
 use filetime::FileTime;
 use jiff::Timestamp;
 
+/// Split a timestamp into whole seconds, rounded towards negative infinity, and
+/// non-negative nanoseconds, as used by Unix `timespec` and by the index format.
+///
+/// (jiff reports times before the epoch with a negative sub-second part.)
+pub(crate) fn unix_seconds_and_nanos(t: &Timestamp) -> (i64, u32) {
+    let mut seconds = t.as_second();
+    let mut nanos = t.subsec_nanosecond();
+    if nanos < 0 {
+        seconds -= 1;
+        nanos += 1_000_000_000;
+    }
+    (seconds, nanos.unsigned_abs())
+}
+
 pub(crate) trait ToFileTime {
     fn to_file_time(&self) -> FileTime;
 }
 
 impl ToFileTime for Timestamp {
     fn to_file_time(&self) -> FileTime {
-        FileTime::from_unix_time(self.as_second(), self.subsec_nanosecond().cast_unsigned())
+        let (seconds, nanos) = unix_seconds_and_nanos(self);
+        FileTime::from_unix_time(seconds, nanos)
     }
 }
